@@ -162,6 +162,26 @@ def run(tier, res, replay=None):
     pairs.append(('swapped-positions', base, a, sw, b))
     pins = cores[1][1]
     pairs.append(('alone-vs-core-pins', pins, 3, alone_case(pins, 3), 0))
+    # an assembly declared by a position-range line in non-SI units, against
+    # the same assembly alone: what others share its input line must not
+    # matter
+    from harness import unitsys
+    A1 = fitted_type(2, OF)
+    F = flow_for(A1, 0.06)
+    lay = [(r_, p_, 'A') for (r_, p_) in layout_positions(7)]
+    rc = make_core(rng, {'A': A1}, lay, [F] * 7, gap_model='none',
+                   bypass_fraction=0.0, coolant='sodium', ncell=2,
+                   setup={'axial_mesh_size': 0.0005,
+                          'axial_plane': [0.15, 0.3, 0.45]})
+    al = copy.deepcopy(rc)
+    al['assign'] = [['A', 1, 1, {'FLOWRATE': F}]]
+    al['power'] = {'1': copy.deepcopy(rc['power'][str(pos_index(2, 3) + 1)])}
+    rc['assign'] = [['A', 1, 1, {'FLOWRATE': F}],
+                    ['A', 2, 1, {'FLOWRATE': F}, 6]]
+    u = {'length': 'cm', 'temperature': 'c', 'mass_flow_rate': 'lb/min'}
+    pairs.append(('alone-vs-core-range-line-units',
+                  unitsys.case_in_units(rc, u), 3,
+                  unitsys.case_in_units(al, u), 0))
     with ProcessPoolExecutor(max_workers=common.NCPU) as ex:
         t_own = list(ex.map(own_and_steps, cores))
         t_pair = list(ex.map(pair_trace, pairs))
